@@ -442,6 +442,9 @@ HAND = {
     'and_vs_or_options': '#strict: /a/b/c/"s" & {c: a, c: b}\n#loose: /a/b/c/"l" & {c: a|b}\n',
     'or_vs_and_options': '#either: /a/b/c/"l" & {c: a|b}\n#strict: /a/b/c/"s" & {c: a, c: b}\n',
     'and_vs_or_redef': '#r: /k/v/"p" & {v: "a", v: k}\n#r: /k/v/"q" & {v: "a"|k}\n',
+    # options of different kinds inside ONE constraint, in every order (literal / pattern / function)
+    'mixed_options_lit_first': '#r: /"m"/a/b & {b: "c"|a}\n#s: /"n"/a/b & {b: "c"|$eq(a)|"b"}\n',
+    'mixed_options_lit_last': '#r: /"m"/a/b & {b: a|"c"}\n#s: /"n"/a/b & {b: $eq(a)|"c"}\n#t: /"o"/a/b/c & {c: "a"|b|a}\n',
     'blog': ('#site: "a"/"b"\n#root: #site/#KEY\n#article: #site/"c"/cat/yr <= #author\n'
              '#author: #site/role/au/#KEY & { role: "d" } <= #admin\n#admin: #site/"e"/ad/#KEY <= #root\n#KEY: "K"/_/_\n'),
 }
